@@ -53,7 +53,7 @@ def structure_never_fails(rep):
             snake = GD.snake(inst)
             try:
                 obj = (N.make_request if mtype == "Call" else N.make_result)(version, action, snake, False)
-            except TypeError as e:
+            except Exception as e:  # noqa: BLE001
                 rep.violation("C11:unconstructible:%s:%s:%s" % (version, mtype, action),
                               "a schema-valid %s %s (%s) cannot be built as its class: %s" % (action, mtype, kind, e),
                               {"kind": "structure", "version": version, "mtype": mtype, "action": action, "instance": inst})
@@ -97,7 +97,7 @@ def materialise_through_call(rep):
         req, resp = reqs[1][1] if len(reqs) > 1 else reqs[0][1], resps[0][1]
         try:
             obj = N.make_request(version, action, GD.snake(req), False)
-        except TypeError:
+        except Exception:  # noqa: BLE001
             continue            # reported by structure_never_fails
         sresp = GD.snake(resp)
         res = N.run_loopback(version, action, obj, lambda kw, _v=version, _a=action, _s=sresp: N.make_result(_v, _a, _s, False))
